@@ -26,6 +26,7 @@ def config(rng, tier):
         "fault_rate": rng.choice([0.0, 0.1, 0.25, 0.4]),
         "derive": rng.choice([0.0, 0.05, 0.15]),
         "two": rng.random() < 0.3,
+        "dup_points": rng.random() < 0.3,  # point tiers may start with several points at one time
         "maxn": rng.choice([8] * 32 + [24, 24, 24, 40, 40, 120, 120, 320]),
     }
 
@@ -122,7 +123,7 @@ def generate(run, rng):
     def ctor():
         if kind == "I":
             return g.ctor_interval(w)
-        return g.ctor_point(w, distinct=True)
+        return g.ctor_point(w, distinct=not cfg.get("dup_points", False))
 
     out = run.do(ctor())
     while out is None or not out.ok:
